@@ -761,9 +761,14 @@ def check_C17(R):
                   "inserting_entry_points": sorted(ins), "exhaustive": True})
 
 
-PARTIAL_CONC = ("PARTIAL: the theorems cover the specification, the linearization-point lemma and the soundness AND completeness of the "
-                "decision procedure applied to recorded histories; that every interleaving of the implementation produces such a history is "
-                "explored by the deterministic scheduler on the real code (testing), not proved")
+PARTIAL_CONC = ("PARTIAL: proved for every interleaving of any number of threads: one LIST bin without resize (Proto/Bin, Proto/BinW: "
+                "lock inside the first node, re-check of the bin cell, step-by-step writer walk, lock-free CAS into an empty bin, lock-free "
+                "readers justified in hindsight; the re-check is shown load-bearing), tied to the code by the lock-discipline check on every "
+                "recorded event stream and to the sequential model by writerStore_refines_seq. Tree bins (Proto/BinT) and a bin under resize "
+                "(Proto/BinX) are modelled; their linearizability theorems are in progress (BinT's original removal order is REFUTED: finding F8). "
+                "Beyond these fragments the theorems cover the specification and the sound AND complete decision procedure applied to recorded "
+                "histories; that every interleaving of the whole implementation produces a linearizable history is explored by the deterministic "
+                "scheduler, the regression scenarios and the stress search on the real code (testing), not proved")
 
 
 def check_C01(R):
